@@ -4,7 +4,7 @@ use crate::checks::c01::SemJudge;
 use crate::progcheck;
 use cvx_core::engine::{Check, CheckInfo, ChunkResult, Tier, Violation};
 use cvx_core::gen_basic::Family;
-use cvx_core::gen_stdlib::{FStdlib, FStdlibLarge, FStdlibReals};
+use cvx_core::gen_stdlib::{FStdlib, FStdlibBigInts, FStdlibLarge, FStdlibReals};
 use cvx_core::region::RegionOpts;
 use serde_json::Value as J;
 use std::sync::OnceLock;
@@ -16,8 +16,8 @@ static THOROUGH: OnceLock<Vec<Box<dyn Family>>> = OnceLock::new();
 
 pub fn families(tier: Tier) -> &'static Vec<Box<dyn Family>> {
     match tier {
-        Tier::Quick => QUICK.get_or_init(|| vec![Box::new(FStdlibLarge), Box::new(FStdlibReals { max_entries: 3 }), Box::new(FStdlib { max_entries: 3 })]),
-        Tier::Thorough => THOROUGH.get_or_init(|| vec![Box::new(FStdlibLarge), Box::new(FStdlibReals { max_entries: 4 }), Box::new(FStdlib { max_entries: 4 })]),
+        Tier::Quick => QUICK.get_or_init(|| vec![Box::new(FStdlibLarge), Box::new(FStdlibBigInts { max_entries: 3 }), Box::new(FStdlibReals { max_entries: 3 }), Box::new(FStdlib { max_entries: 3 })]),
+        Tier::Thorough => THOROUGH.get_or_init(|| vec![Box::new(FStdlibLarge), Box::new(FStdlibBigInts { max_entries: 4 }), Box::new(FStdlibReals { max_entries: 4 }), Box::new(FStdlib { max_entries: 4 })]),
     }
 }
 
@@ -30,7 +30,7 @@ impl Check for C09 {
     fn info(&self, tier: Tier) -> CheckInfo {
         let fams = families(tier);
         CheckInfo {
-            rule: "every table with up to the stated number of entries over the values {nil, 0, 1, 1.0, 2, \"a\", \"bb\", {}, -0.0} (ties, mixed numeric kinds and incomparable pairs included) x key style (array keys, string keys, mixed int/string/real/nil keys) x function in {filter, any, map, min, max, min_by_key, max_by_key, sorted, sorted_by_key, to_array} x callback / key-function variant (value, key, constant, predicate, allocating, re-entering the library, index / closure counting its calls in a captured variable; non-table inputs nil, 3, 0.5, \"s\", a function for the functions without callback) x call path (absolute std.x, imported, absolute with another import present). F-stdlib-reals: every table with up to the stated number of entries over the reals {0.0, 1e-20, -3e-17, the smallest subnormal, 0.1+0.2-0.3, 2.5} (string keys) x the ten functions x callback returning the value / the key resp. key function returning the value / its negation: every non-zero real is truthy, order is numeric. F-stdlib-large: tables of 20, 21, 32, 33, 50 and 100 entries filled from 4 value patterns with many ties and out of order (integers; integers mixed with equal reals) x string / integer keys x the ten functions x value and negated-value key functions resp. value / gt1 callbacks. Oracle: direct specification functions in the reference semantics (same keys/values/order, first minimum/maximum, stable ascending order, input unchanged, callback invocation log with (k, v, i) arguments). min/max/sorted verdicts only where the compared results are pairwise comparable. 'states' = distinct reference outcomes per chunk".into(),
+            rule: "every table with up to the stated number of entries over the values {nil, 0, 1, 1.0, 2, \"a\", \"bb\", {}, -0.0} (ties, mixed numeric kinds and incomparable pairs included) x key style (array keys, string keys, mixed int/string/real/nil keys) x function in {filter, any, map, min, max, min_by_key, max_by_key, sorted, sorted_by_key, to_array} x callback / key-function variant (value, key, constant, predicate, allocating, re-entering the library, index / closure counting its calls in a captured variable; non-table inputs nil, 3, 0.5, \"s\", a function for the functions without callback) x call path (absolute std.x, imported, absolute with another import present). F-stdlib-reals: every table with up to the stated number of entries over the reals {0.0, 1e-20, -3e-17, the smallest subnormal, 0.1+0.2-0.3, 2.5} (string keys) x the ten functions x callback returning the value / the key resp. key function returning the value / its negation: every non-zero real is truthy, order is numeric. F-stdlib-bigints: every table with up to the stated number of entries over the integers {MAX, MAX-1, 2^53+1, 2^53, 0, -2^53-1, MIN+1, MIN} (neighbours that round to one f64) x the ten functions with value callbacks / key functions: integer order is exact. F-stdlib-reenter (variants of F-stdlib): key functions that call std.max / std.sorted / std.min_by_key on another six-row table while the outer call is in progress. F-stdlib-large: tables of 20, 21, 32, 33, 50 and 100 entries filled from 4 value patterns with many ties and out of order (integers; integers mixed with equal reals) x string / integer keys x the ten functions x value and negated-value key functions resp. value / gt1 callbacks. Oracle: direct specification functions in the reference semantics (same keys/values/order, first minimum/maximum, stable ascending order, input unchanged, callback invocation log with (k, v, i) arguments). min/max/sorted verdicts only where the compared results are pairwise comparable. 'states' = distinct reference outcomes per chunk".into(),
             bound: format!("families {:?}", fams.iter().map(|f| format!("{}={}", f.name(), f.len())).collect::<Vec<_>>()),
             exhaustive: true,
             assumptions: vec!["tables whose compared results are not pairwise comparable under the language's order are executed but not compared (smallest / largest / ascending are undefined there)".into(), "callbacks declare exactly the parameters the library passes ((k, v, i) resp. (key, value))".into()],
